@@ -64,6 +64,7 @@ Msgs(c) ==
              : h \in Hosts, aa \in {<<<<RegApp>>, <<>>>>, <<<<77>>, <<>>>>, <<<<>>, <<RegApp>>>>}} ELSE {}) \cup
   (IF "cerout" \in Alpha /\ S.conn[c].dir = "out" /\ S.conn[c].st = "CONNECTED"        \* a CER where the node expects the CEA
      THEN {Mk("CE", 257, TRUE, 1, 1, 0, S.conn[c].nodeName, "", 0, FALSE, TRUE, FALSE, <<RegApp>>, <<>>, FALSE)} ELSE {}) \cup
+  (IF "dwr2" \in Alpha /\ c = 2 THEN {Mk("DW", 280, TRUE, 1, 1, 0, h, "", 0, FALSE, TRUE, FALSE, <<>>, <<>>, FALSE) : h \in sp} ELSE {}) \cup   \* only connection 2 speaks
   (IF "dwr0" \in Alpha THEN {Mk("DW", 280, TRUE, 0, 0, 0, h, "", 0, FALSE, TRUE, FALSE, <<>>, <<>>, FALSE) : h \in sp} ELSE {}) \cup
   (IF "req0" \in Alpha /\ ~InFlight(c, 0, 0)
      THEN {Mk("APP", 272, TRUE, 0, 0, RegApp, h, NodeCfg.realm, 0, FALSE, TRUE, FALSE, <<>>, <<>>, FALSE) : h \in sp} ELSE {}) \cup
